@@ -49,35 +49,28 @@ func (o *orbitDBEventLogStore) Add(ctx context.Context, value []byte) (operation
 }
 
 func (o *orbitDBEventLogStore) Get(ctx context.Context, cid cid.Cid) (operation.Operation, error) {
-	ctx, cancel := context.WithCancel(ctx)
-	defer cancel()
-	errChan := make(chan error)
-
-	stream := make(chan operation.Operation)
-	one := 1
-
-	go func() {
-		if err := o.Stream(ctx, stream, &iface.StreamOptions{GTE: &cid, Amount: &one}); err != nil {
-			errChan <- fmt.Errorf("unable to open stream: %w", err)
-			cancel()
-			return
-		}
-	}()
-
-	select {
-	case value, ok := <-stream:
-		cancel()
-		if ok {
-			return value, nil
-		}
-		return nil, fmt.Errorf("channel read failed")
-
-	case err := <-errChan:
-		return nil, err
-
-	case <-ctx.Done():
+	if err := ctx.Err(); err != nil {
 		return nil, fmt.Errorf("context deadline exceeded")
 	}
+
+	// the query is synchronous: run it directly instead of streaming it from a helper
+	// goroutine, which stayed blocked on its send whenever this call returned first
+	one := 1
+	messages, err := o.query(&iface.StreamOptions{GTE: &cid, Amount: &one})
+	if err != nil {
+		return nil, fmt.Errorf("unable to open stream: unable to fetch query results: %w", err)
+	}
+
+	if len(messages) == 0 {
+		return nil, fmt.Errorf("channel read failed")
+	}
+
+	op, err := operation.ParseOperation(messages[0])
+	if err != nil {
+		return nil, fmt.Errorf("unable to open stream: unable to parse operation: %w", err)
+	}
+
+	return op, nil
 }
 
 func (o *orbitDBEventLogStore) Stream(_ context.Context, resultChan chan operation.Operation, options *iface.StreamOptions) error {
